@@ -44,7 +44,7 @@ class C18(Prop):
     def generate(self, rng: random.Random, i: int, tier: str):
         spec = enginekit.gen_spec(rng, small=(tier == "quick"))
         return {"spec": spec, "hs_save": rng.choice([0, 1, "random"]), "hs_resume": rng.choice([2, 3, "random"]),
-                "noise": rng.randint(0, 10_000)}
+                "noise": rng.randint(0, 10_000), "all_crash_points": tier == "thorough"}
 
     def shrink(self, case):
         s = case["spec"]
@@ -64,11 +64,26 @@ class C18(Prop):
             nsteps = sum(1 for x in full["digests"] if x.startswith("metrics:"))
             saves = [({"spec": spec, "mode": "step", "noise": case["noise"], "prior_contexts": 1, "save_at": n,
                        "save_path": os.path.join(d, f"bk{n}.pkl")}, case["hs_save"]) for n in range(nsteps + 1)]
-            sres = enginekit.run_workers(saves, parallel=8)
+            # the engine's own backup path with a simulated crash (run(backup_path, backup_freq) + exception in the next step)
+            crash_ns = list(range(nsteps + 1)) if case.get("all_crash_points") else sorted({0, nsteps // 2, nsteps})
+            crashes = [({"spec": spec, "mode": "step", "noise": case["noise"] + 2, "prior_contexts": 0, "crash_at": n,
+                         "save_path": os.path.join(d, f"crash{n}.pkl")}, case["hs_save"]) for n in crash_ns if n < nsteps or n == 0]
+            sres = enginekit.run_workers(saves + crashes, parallel=10)
+            cres = sres[len(saves):]
+            sres = sres[:len(saves)]
             resumes = [({"spec": spec, "mode": "step", "noise": case["noise"] + 1, "resume_path": os.path.join(d, f"bk{n}.pkl")},
                         case["hs_resume"]) for n in range(nsteps + 1)]
-            rres = enginekit.run_workers(resumes, parallel=8)
+            cresumes = [({"spec": spec, "mode": "step", "noise": case["noise"] + 3, "resume_path": j["save_path"]}, case["hs_resume"])
+                        for j, _ in crashes]
+            rres = enginekit.run_workers(resumes + cresumes, parallel=10)
+            crres = rres[len(resumes):]
+            rres = rres[:len(resumes)]
             out = []
+            for (j, _), s_, r in zip(crashes, cres, crres):
+                out.append({"n": f"crash@{j['crash_at']}", "save_error": s_.get("error"), "error": r.get("error"), "digests": r.get("digests"),
+                            "results": r.get("results"), "final_table": r.get("final_table"),
+                            "save_trace": (s_.get("trace") or "")[-600:] if s_.get("error") else "",
+                            "trace": (r.get("trace") or "")[-500:] if r.get("error") else ""})
             for n, (s, r) in enumerate(zip(sres, rres)):
                 out.append({"n": n, "save_error": s.get("error"), "error": r.get("error"), "digests": r.get("digests"),
                             "results": r.get("results"), "final_table": r.get("final_table"),
